@@ -22,6 +22,18 @@ Proof.
   unfold is_pos. cbn [mem]. rewrite !orb_true_iff. intros [Hp|[Hp|[Hp|[Hp|[Hp|Hp]]]]]; try discriminate; apply ueqb_eq in Hp; subst; reflexivity.
 Qed.
 
+(* the same for a position whose references are read through an alias (the parent_ columns of a join) *)
+Definition free_alias (alias : ustr) (ns : list ustr) : Prop := forall n, In n ns -> mem (alias ++ n) reserved = false.
+Lemma names_free_alias ns : names_free ns -> free_alias [] ns. Proof. exact (fun H => H). Qed.
+Lemma free_alias_no_shadow alias pos ns : is_pos pos = true -> free_alias alias ns -> no_shadow alias pos ns.
+Proof.
+  intros Hp Hn n Hin. specialize (Hn n Hin). unfold is_pos in Hp. cbn [mem reserved] in *.
+  rewrite !orb_false_iff in Hn. destruct Hn as (A & B & C & D & E & F & G & _). split; auto.
+  rewrite !orb_true_iff in Hp. destruct Hp as [Hp|[Hp|[Hp|[Hp|[Hp|Hp]]]]]; try discriminate; apply ueqb_eq in Hp; subst; auto.
+Qed.
+Lemma parent_alias_free ns : free_alias parent_prefix ns.
+Proof. intros n _. reflexivity. Qed.
+
 Definition opt_term (tt : ttype) (x : option ustr) : option ustr := option_map (render tt) x.
 (* what the generation rules give for one row of a rule (None: no statement) *)
 Definition spec_rule_line (scfg : scfg) (rl : rule) (sr : srow) : option ustr :=
@@ -45,10 +57,15 @@ Definition spec_rule_line (scfg : scfg) (rl : rule) (sr : srow) : option ustr :=
 
 Definition pos_ok (k : mkind) (v : ustr) (tt : ttype) : Prop :=
   is_plain k = true /\ term_wf k v = true /\ (tt = TLit -> lits_neutral (segs_of k v) = true) /\ names_free (names (segs_of k v)).
+Definition opos_ok (alias : ustr) (k : mkind) (v : ustr) (tt : ttype) : Prop :=
+  is_plain k = true /\ term_wf k v = true /\ (tt = TLit -> lits_neutral (segs_of k v) = true) /\ free_alias alias (names (segs_of k v)).
+Lemma pos_ok_opos k v tt : pos_ok k v tt -> opos_ok [] k v tt. Proof. exact (fun H => H). Qed.
 Definition rule_ok (nquads : bool) (rl : rule) : Prop :=
   pos_ok (r_sk rl) (r_sv rl) (r_stt rl) /\ pos_ok (r_pk rl) (r_pv rl) TIri /\ pos_ok (r_ok rl) (r_ov rl) (r_ott rl) /\
   (r_ld rl <> LDNone -> pos_ok (r_ldk rl) (r_ldv rl) TNone) /\
   (nquads = true -> (pos_ok (r_gk rl) (r_gv rl) TIri \/ r_gk rl = KNone)).
+Definition pl_names (rl : rule) : list ustr :=
+  names (segs_of (r_pk rl) (r_pv rl)) ++ names (segs_of (r_ldk rl) (r_ldv rl)).
 Definition po_names (rl : rule) : list ustr :=
   names (segs_of (r_pk rl) (r_pv rl)) ++ names (segs_of (r_ok rl) (r_ov rl)) ++ names (segs_of (r_ldk rl) (r_ldv rl)).
 Definition rule_names (rl : rule) : list ustr :=
@@ -67,6 +84,16 @@ Section Step.
     end.
   Proof.
     intros Hp (Hk & Hwf & Hl & Hn) Hr. apply engine_term_is_spec_term; auto using is_pos_not_refres, names_free_no_shadow.
+  Qed.
+  Lemma term_step_alias alias k v tt dt pos r sr :
+    is_pos pos = true -> opos_ok alias k v tt -> row_agree scfg sr alias r (names (segs_of k v)) ->
+    match mat_template cfg v k pos alias tt dt r with
+    | Ok r' => exists lex, spec_lex scfg k v tt dt sr = Some lex /\ rget pos r' = Some (render tt lex) /\
+                           (forall c, ueqb c pos = false -> ueqb c col_refres = false -> rget c r' = rget c r)
+    | Err _ => spec_lex scfg k v tt dt sr = None
+    end.
+  Proof.
+    intros Hp (Hk & Hwf & Hl & Hn) Hr. apply engine_term_is_spec_term; auto using is_pos_not_refres, free_alias_no_shadow.
   Qed.
 End Step.
 
@@ -100,6 +127,8 @@ Lemma rset_same_data k v r : mem k reserved = true -> same_data r (rset k v r).
 Proof. intros Hk c Hc. apply rget_rset_other. destruct (ueqb c k) eqn:E; auto. apply ueqb_eq in E; subst. congruence. Qed.
 Lemma row_agree_carry scfg sr r r' ns : same_data r r' -> names_free ns -> row_agree scfg sr [] r ns -> row_agree scfg sr [] r' ns.
 Proof. intros Hs Hn Hr n Hin. cbn [app]. rewrite Hs by now apply Hn. now apply Hr. Qed.
+Lemma row_agree_carry_alias scfg sr alias r r' ns : same_data r r' -> free_alias alias ns -> row_agree scfg sr alias r ns -> row_agree scfg sr alias r' ns.
+Proof. intros Hs Hn Hr n Hin. rewrite Hs by now apply Hn. now apply Hr. Qed.
 Lemma row_agree_sub scfg sr r ns ms : (forall n, In n ms -> In n ns) -> row_agree scfg sr [] r ns -> row_agree scfg sr [] r ms.
 Proof. intros H Hr n Hn. apply Hr. now apply H. Qed.
 
@@ -109,11 +138,13 @@ Definition spec_suffix_of (scfg : scfg) (rl : rule) (sr : srow) : option ustr :=
   | LDLang => option_map (fun l => 64 :: l) (spec_lex scfg (r_ldk rl) (r_ldv rl) TNone [] sr)
   | LDDt => option_map (fun d => 94 :: 94 :: render TIri d) (spec_lex scfg (r_ldk rl) (r_ldv rl) TIri [] sr)
   end.
-Definition spec_po (scfg : scfg) (rl : rule) (sr : srow) : option (ustr * ustr) :=
+(* predicate and object; the object may be read from another row (the parent row of a join) *)
+Definition spec_po_gen (scfg : scfg) (rl : rule) (sr osr : srow) : option (ustr * ustr) :=
   match spec_lex scfg (r_pk rl) (r_pv rl) TIri [] sr with None => None | Some p =>
-  match spec_lex scfg (r_ok rl) (r_ov rl) (r_ott rl) (r_ldv rl) sr with None => None | Some o =>
+  match spec_lex scfg (r_ok rl) (r_ov rl) (r_ott rl) (r_ldv rl) osr with None => None | Some o =>
   match spec_suffix_of scfg rl sr with None => None | Some suffix =>
   Some (render TIri p, render (r_ott rl) o ++ suffix) end end end.
+Definition spec_po (scfg : scfg) (rl : rule) (sr : srow) : option (ustr * ustr) := spec_po_gen scfg rl sr sr.
 Definition spec_parts (scfg : scfg) (rl : rule) (sr : srow) : option (ustr * ustr * ustr) :=
   match spec_lex scfg (r_sk rl) (r_sv rl) (r_stt rl) [] sr with None => None | Some s =>
   match spec_po scfg rl sr with None => None | Some (p, o) => Some (render (r_stt rl) s, p, o) end end.
@@ -133,7 +164,7 @@ Lemma spec_rule_line_parts scfg rl sr :
   | Some (s, p, o) => spec_graph_line scfg rl sr (s ++ [32] ++ p ++ [32] ++ o)
   end.
 Proof.
-  unfold spec_rule_line, spec_parts, spec_po, spec_suffix_of, spec_graph_line.
+  unfold spec_rule_line, spec_parts, spec_po, spec_po_gen, spec_suffix_of, spec_graph_line.
   destruct (spec_lex scfg (r_sk rl) (r_sv rl) (r_stt rl) [] sr); auto.
   destruct (spec_lex scfg (r_pk rl) (r_pv rl) TIri [] sr); auto.
   destruct (spec_lex scfg (r_ok rl) (r_ov rl) (r_ott rl) (r_ldv rl) sr); auto.
@@ -147,22 +178,22 @@ Section Row.
   Variables (cfg : ecfg) (fe : fenv) (scfg : scfg).
   Hypothesis Hcfg : cfg_agree cfg scfg.
 
-  Ltac sub_names := let n := fresh in let H := fresh in intros n H; unfold rule_names, po_names in *; rewrite ?in_app_iff in H; rewrite ?in_app_iff; tauto.
+  Ltac sub_names := let n := fresh in let H := fresh in intros n H; unfold rule_names, po_names, pl_names in *; rewrite ?in_app_iff in H; rewrite ?in_app_iff; tauto.
 
-  Lemma po_phase rl r r1 sr s :
+  Lemma po_phase_gen alias osr rl r r1 sr s :
     mat_pos cfg fe (r_sk rl) (r_sv rl) col_subject [] (r_stt rl) [] r = Ok [r1] ->
     same_data r r1 -> rget col_subject r1 = Some s ->
-    pos_ok (r_pk rl) (r_pv rl) TIri -> pos_ok (r_ok rl) (r_ov rl) (r_ott rl) -> (r_ld rl <> LDNone -> pos_ok (r_ldk rl) (r_ldv rl) TNone) ->
-    row_agree scfg sr [] r (po_names rl) ->
-    match mat_terms cfg fe rl [] r with
-    | Ok l => exists r' p o, l = [r'] /\ spec_po scfg rl sr = Some (p, o) /\
+    pos_ok (r_pk rl) (r_pv rl) TIri -> opos_ok alias (r_ok rl) (r_ov rl) (r_ott rl) -> (r_ld rl <> LDNone -> pos_ok (r_ldk rl) (r_ldv rl) TNone) ->
+    row_agree scfg sr [] r (pl_names rl) -> row_agree scfg osr alias r (names (segs_of (r_ok rl) (r_ov rl))) ->
+    match mat_terms cfg fe rl alias r with
+    | Ok l => exists r' p o, l = [r'] /\ spec_po_gen scfg rl sr osr = Some (p, o) /\
               rget col_subject r' = Some s /\ rget col_predicate r' = Some p /\ rget col_object r' = Some o /\ same_data r r'
-    | Err _ => spec_po scfg rl sr = None
+    | Err _ => spec_po_gen scfg rl sr osr = None
     end.
   Proof.
-    intros HS1 D1 Gs HP HO HL Hr. unfold mat_terms, spec_po. rewrite HS1.
+    intros HS1 D1 Gs HP HO HL Hr Hro. unfold mat_terms, spec_po_gen. rewrite HS1.
     assert (NP : names_free (names (segs_of (r_pk rl) (r_pv rl)))) by apply HP.
-    assert (NO : names_free (names (segs_of (r_ok rl) (r_ov rl)))) by apply HO.
+    assert (NO : free_alias alias (names (segs_of (r_ok rl) (r_ov rl)))) by apply HO.
     (* predicate *)
     rewrite bindl_single.
     rewrite mat_pos_plain by apply HP.
@@ -175,10 +206,10 @@ Section Row.
     (* object *)
     rewrite bindl_single.
     rewrite mat_pos_plain by apply HO.
-    pose proof (term_step cfg scfg Hcfg (r_ok rl) (r_ov rl) (r_ott rl) (r_ldv rl) col_object r2 sr eq_refl HO) as T3.
-    assert (A2 : row_agree scfg sr [] r2 (names (segs_of (r_ok rl) (r_ov rl)))).
-    { eapply row_agree_carry; [eapply same_data_trans; [exact D1|exact D2]|exact NO|]. eapply row_agree_sub; [|exact Hr]. sub_names. }
-    destruct (mat_template cfg (r_ov rl) (r_ok rl) col_object [] (r_ott rl) (r_ldv rl) r2) as [r3|e3]; cbn [rbind]; [|rewrite !bindl_err; now rewrite T3].
+    pose proof (term_step_alias cfg scfg Hcfg alias (r_ok rl) (r_ov rl) (r_ott rl) (r_ldv rl) col_object r2 osr eq_refl HO) as T3.
+    assert (A2 : row_agree scfg osr alias r2 (names (segs_of (r_ok rl) (r_ov rl)))).
+    { eapply row_agree_carry_alias; [eapply same_data_trans; [exact D1|exact D2]|exact NO|exact Hro]. }
+    destruct (mat_template cfg (r_ov rl) (r_ok rl) col_object alias (r_ott rl) (r_ldv rl) r2) as [r3|e3]; cbn [rbind]; [|rewrite !bindl_err; now rewrite T3].
     rewrite bindl_single.
     destruct (T3 A2) as (o & Eo & Go & Uo). rewrite Eo.
     assert (D3 : same_data r2 r3) by (eapply unchanged_same_data; [|exact Uo]; reflexivity).
@@ -224,6 +255,22 @@ Section Row.
       eapply same_data_trans; [exact D03|]. eapply same_data_trans; [eapply unchanged_same_data; [|exact Ul]; reflexivity|]. now apply rset_same_data.
   Qed.
 
+
+  Lemma po_phase rl r r1 sr s :
+    mat_pos cfg fe (r_sk rl) (r_sv rl) col_subject [] (r_stt rl) [] r = Ok [r1] ->
+    same_data r r1 -> rget col_subject r1 = Some s ->
+    pos_ok (r_pk rl) (r_pv rl) TIri -> pos_ok (r_ok rl) (r_ov rl) (r_ott rl) -> (r_ld rl <> LDNone -> pos_ok (r_ldk rl) (r_ldv rl) TNone) ->
+    row_agree scfg sr [] r (po_names rl) ->
+    match mat_terms cfg fe rl [] r with
+    | Ok l => exists r' p o, l = [r'] /\ spec_po scfg rl sr = Some (p, o) /\
+              rget col_subject r' = Some s /\ rget col_predicate r' = Some p /\ rget col_object r' = Some o /\ same_data r r'
+    | Err _ => spec_po scfg rl sr = None
+    end.
+  Proof.
+    intros HS1 D1 Gs HP HO HL Hr. apply (po_phase_gen [] sr rl r r1 sr s HS1 D1 Gs HP (pos_ok_opos _ _ _ HO) HL).
+    - eapply row_agree_sub; [|exact Hr]. sub_names.
+    - eapply row_agree_sub; [|exact Hr]. sub_names.
+  Qed.
 
   Lemma terms_phase nq rl r sr :
     rule_ok nq rl -> row_agree scfg sr [] r (rule_names rl) ->
